@@ -12,6 +12,7 @@ use std::sync::atomic::{AtomicBool, AtomicU64, AtomicUsize, Ordering};
 use std::sync::{Condvar, Mutex};
 use std::time::{Duration, Instant};
 use steel::steel_vm::engine::Engine;
+use steel::steel_vm::register_fn::RegisterFn;
 use steel::steel_vm::verif_hook as hook;
 
 struct Orch {
@@ -454,8 +455,8 @@ fn stress_progress() {
     engine
         .run(
             r#"(define counter 0)
-               (define stop-flag #f)
-               (define (stopper) (if stop-flag 'done (begin (set! counter (+ counter 1)) (stopper))))
+               (define stop-flag (box #f))
+               (define (stopper) (if (unbox stop-flag) 'done (begin (set! counter (+ counter 1)) (stopper))))
                (define (worker) (+ 1 2))
                (define stopper-thread #f)"#
                 .to_string(),
@@ -486,7 +487,7 @@ fn stress_progress() {
         engine.run("(thread-join! (spawn-native-thread worker))".to_string()).unwrap();
         progress.store(i as u64 + 1, Ordering::SeqCst);
     }
-    engine.run("(set! stop-flag #t) (thread-join! stopper-thread)".to_string()).unwrap();
+    engine.run("(set-box! stop-flag #t) (thread-join! stopper-thread)".to_string()).unwrap();
     progress.store(u64::MAX, Ordering::SeqCst);
     println!("COMPLETED: {} spawn/join rounds against a continuously assigning thread", rounds);
 }
@@ -539,4 +540,56 @@ fn interrupt_between_stores() {
         Err(e) => println!("COMPLETED: evaluation stopped with an error: {}", e),
         Ok(_) => println!("COMPLETED: evaluation finished before the interrupt"),
     }
+}
+
+// ------------------------------------------------------------------ conformance traces (DESIGN 3.5)
+// Records what the REAL engine does at the hook points while one world-stopping operation runs
+// next to a second script thread.  Nothing is forced.  The traces are fed to the extracted
+// automata: every real trace has to be a run of the model (otherwise an "unsat" of the model
+// would say nothing about the code).
+static RECORDING: AtomicBool = AtomicBool::new(false);
+static REC: Mutex<Vec<(String, u32, usize)>> = Mutex::new(Vec::new());
+fn rec_callback(id: u32, arg: usize) {
+    if RECORDING.load(Ordering::SeqCst) && id != hook::SPIN && id != hook::POLL {
+        REC.lock().unwrap().push((format!("{:?}", std::thread::current().id()), id, arg));
+    }
+}
+
+#[test]
+fn conformance_trace() {
+    let op = std::env::var("VERIF_CONF_OP").unwrap_or_else(|_| "set".to_string());
+    let rounds: u64 = std::env::var("VERIF_CONF_ROUNDS").ok().and_then(|x| x.parse().ok()).unwrap_or(16);
+    let worker = std::env::var("VERIF_CONF_WORKER").unwrap_or_else(|_| "prim".to_string());
+    let mut engine = Engine::new();
+    engine.register_fn("trace-on", || RECORDING.store(true, Ordering::SeqCst));
+    engine.register_fn("trace-off", || RECORDING.store(false, Ordering::SeqCst));
+    engine.run("(require-builtin steel/time)".to_string()).unwrap();
+    engine
+        .run(
+            r#"(define x 0)
+               ;; a box: a global that is only assigned in a LATER evaluation is folded into the
+               ;; functions of this one as the constant #f (observed; outside every check here)
+               (define stop-flag (box #f))
+               (define (spin n) (if (= n 0) 0 (spin (- n 1))))
+               (define (worker-prim k) (if (unbox stop-flag) 'done (begin (time/sleep-ms 1) (spin 20) (worker-prim (+ k 1)))))
+               (define (worker-user k) (if (unbox stop-flag) 'done (worker-user (+ k 1))))
+               (define t1 #f)"#
+                .to_string(),
+        )
+        .unwrap();
+    engine
+        .run(format!("(set! t1 (spawn-native-thread (lambda () (worker-{} 0))))", worker))
+        .unwrap();
+    hook::set(Some(rec_callback));
+    let body = if op == "gc" { "(#%gc-collect)" } else { "(set! x (+ x 1))" };
+    for r in 0..rounds {
+        std::thread::sleep(Duration::from_micros(300 + (r * 137) % 1100));
+        engine.run(format!("(begin (trace-on) {} (trace-off))", body)).unwrap();
+        RECORDING.store(false, Ordering::SeqCst);
+        let ev: Vec<(String, u32, usize)> = REC.lock().unwrap().drain(..).collect();
+        let s: Vec<String> = ev.iter().map(|(t, id, arg)| format!("{}|{}|{:x}", t, point_name(*id), arg)).collect();
+        println!("TRACE: {}", s.join(","));
+    }
+    hook::set(None);
+    engine.run("(set-box! stop-flag #t) (thread-join! t1)".to_string()).unwrap();
 }
